@@ -29,6 +29,16 @@ __all__ = ["Axis","Axes"]
 def _check_axis_values(values, dtype=None):
     """ convert Axis type to have "object" instead of string
     """
+    # a sequence of sequences stands for tuple labels (e.g. a grouped axis read
+    # back from json): make the tuples here, so that every member keeps its own
+    # type instead of being cast to a common one by numpy
+    if dtype is None and isinstance(values, (list, tuple)) and len(values) > 0 \
+            and all(isinstance(v, (list, tuple)) for v in values):
+        val = np.empty(len(values), dtype=object)
+        for i, v in enumerate(values):
+            val[i] = tuple(v)
+        values = val
+
     try:
         values = np.asarray(values, dtype=dtype)
     except Exception as error:
